@@ -1,5 +1,6 @@
 import PPLV.Wrap.ProofsBoxDom
 import PPLV.Wrap.ProofsInterval
+import PPLV.Wrap.ProofsBox
 import PPLV.Wrap.ProofsInteger
 
 /-!
@@ -20,9 +21,11 @@ hypothesis per member function; `wrapAssign d cfg P` transliterates `wrap_assign
   the ghost flag `wrapTrips`), `wrap_sound_individually_partial`, `wrap_sound_notWraps_partial`
   (no run of these classes executes it), and `wrap_sound_repaired` (full strength for the repaired code
   `wrapAssignFixed`, which sends `x` to `set_full_range`).
-* `Interval::wrap_assign` (hence `Box::wrap_assign`): `interval_wrap_sound_fails` (defect 12, `[0,256]` to
-  unsigned 8 bits gives `{0}`), `interval_wrap_sound_partial` (width `< 2^w`, or unbounded, or empty),
-  `interval_wrap_sound_repaired` (the comparison `u >= lower()`).
+* `Interval::wrap_assign` (hence `Box::wrap_assign`): `interval_wrap_sound` for the code (the comparison
+  `u >= lower()` since the fix of defect 12 in /repo, 7a40b81); `interval_wrap_defect12_before_fix`
+  (`[0,256]` to unsigned 8 bits gave `{0}`) and `interval_wrap_sound_before_fix_partial` document the repaired defect.
+* `Box::wrap_assign` without guard: `box_wrap_sound_partial` / `_fails` (`Z_Box`, overflow undefined, upper
+  boundary `max + 1`).
 * `drop_sound`: the clause the harness judges `drop_some_non_integer_points` with, and the two
   tightening steps of `Polyhedron::drop_some_non_integer_points` satisfy it.
 * `containsIntegerPointRef_sound`: the reference for `contains_integer_point()`.
@@ -167,13 +170,22 @@ example : wrapU 8 300 = 44 ∧ wrapS 8 200 = -56 ∧ wrapS 8 (-129) = 127 ∧ qu
 /-! ## `Interval::wrap_assign` -/
 
 /-- the clause for one interval: every integer of `I` whose wrapped value lies in the refinement
-interval is, wrapped, in the result -/
+interval is, wrapped, in the result (`strictTest = false`: the code; `true`: the comparison `u > lower()`
+it had before the fix of defect 12) -/
 def IntervalWrapSound (strictTest : Bool) (I : Itv) (w : Nat) (r : Repn) (ref : Itv) : Prop :=
   ∀ z : Int, I.mem (z : Rat) → ref.mem ((wrapR r w z : Int) : Rat) →
     (ivWrap strictTest I w r ref).mem ((wrapR r w z : Int) : Rat)
 
-/-- **defect 12**: `[0,256]` wrapped to unsigned 8 bits inside `[0,255]` is `{0}`; `5` is lost -/
-theorem interval_wrap_sound_fails :
+/-- **interval_wrap_sound**: `Interval::wrap_assign` (comparison `u >= lower()`, /repo 7a40b81) never loses
+a wrapped value, for every interval (open, closed, unbounded, empty), width, signedness, refinement -/
+theorem interval_wrap_sound (I : Itv) (w : Nat) (r : Repn) (ref : Itv) :
+    IntervalWrapSound false I w r ref :=
+  fun z hz hr => ivWrap_sound false I w r ref (Or.inl rfl) z hz hr
+
+/-- **defect 12** (repaired in /repo by 7a40b81; kept so that a regression is recognised — the driver reports
+which comparison explains the real result): with `u > lower()`, `[0,256]` wrapped to unsigned 8 bits
+inside `[0,255]` is `{0}`; `5` is lost -/
+theorem interval_wrap_defect12_before_fix :
     ¬ ∀ (I : Itv) (w : Nat) (r : Repn) (ref : Itv), IntervalWrapSound true I w r ref := by
   intro h
   have := h ⟨some (0, false), some (256, false)⟩ 8 .unsigned (rangeItv .unsigned 8) 5
@@ -181,22 +193,53 @@ theorem interval_wrap_sound_fails :
   revert this
   decide +kernel
 
-/-- the code as written is sound for intervals narrower than `2ʷ` (and for unbounded ones).
-Missing for full strength: width exactly `2ʷ` (`interval_wrap_sound_fails`). -/
-theorem interval_wrap_sound_partial (I : Itv) (w : Nat) (r : Repn) (ref : Itv)
+/-- the comparison before the fix was sound exactly off the width `2ʷ` -/
+theorem interval_wrap_sound_before_fix_partial (I : Itv) (w : Nat) (r : Repn) (ref : Itv)
     (hnarrow : ∀ l lo u uo, I.lo = some (l, lo) → I.hi = some (u, uo) → u - l ≠ ((2 : Int) ^ w : Int)) :
     IntervalWrapSound true I w r ref :=
   fun z hz hr => ivWrap_sound true I w r ref (Or.inr hnarrow) z hz hr
 
-/-- with the repaired comparison (`u >= lower()`) the clause holds for every interval -/
-theorem interval_wrap_sound_repaired (I : Itv) (w : Nat) (r : Repn) (ref : Itv) :
-    IntervalWrapSound false I w r ref :=
-  fun z hz hr => ivWrap_sound false I w r ref (Or.inl rfl) z hz hr
-
 example : (ivWrap false ⟨some (0, false), some (256, false)⟩ 8 .unsigned (rangeItv .unsigned 8)).mem 5 := by
   decide +kernel
-example : (ivWrap true ⟨some (200, false), some (300, false)⟩ 8 .unsigned (rangeItv .unsigned 8)).mem 44 := by
+example : (ivWrap false ⟨some (200, false), some (300, false)⟩ 8 .unsigned (rangeItv .unsigned 8)).mem 44 := by
   decide +kernel
+
+/-! ## `Box::wrap_assign` (branch without guard) -/
+
+/-- the clause for a box: `boxWrap strictTest storeOpen cfg B` transliterates the three loops of the
+`cs_p == nullptr` branch of `Box::wrap_assign` on a non-empty box `B` (`strictTest = false`: the code);
+`storeOpen` says whether the interval type can store open boundaries -/
+def BoxWrapSound (strictTest storeOpen : Bool) (cfg : WrapCfg) (B : List Itv) : Prop :=
+  ∀ v v' : Pt, boxMem B v → v' ∈ Spec.wrapImages cfg v → boxMem (boxWrap strictTest storeOpen cfg B) v'
+
+/-- **Box::wrap_assign is sound** for `OVERFLOW_WRAPS` and `OVERFLOW_IMPOSSIBLE` on every box, and for
+`OVERFLOW_UNDEFINED` when the interval type stores open boundaries (`Rational_Box`).
+Missing for full strength: `OVERFLOW_UNDEFINED` on closed-boundary boxes (`box_wrap_sound_fails`). -/
+theorem box_wrap_sound_partial (storeOpen : Bool) (cfg : WrapCfg) (B : List Itv)
+    (hopen : cfg.o = .undefined → storeOpen = true) :
+    BoxWrapSound false storeOpen cfg B :=
+  fun v v' hB himg => boxWrap_sound false storeOpen cfg B v v' himg (Or.inl rfl) hopen hB
+
+/-- **fails** on `Z_Box` (closed integer boundaries): `[250,256]` to unsigned 8 bits with undefined overflow
+is left alone, although `256` overflows and may become, e.g., `0` -/
+theorem box_wrap_sound_fails :
+    ¬ ∀ (storeOpen : Bool) (cfg : WrapCfg) (B : List Itv), BoxWrapSound false storeOpen cfg B := by
+  intro h
+  have := h false ⟨[0], 8, .unsigned, .undefined, none, 16, false⟩ [⟨some (250, false), some (256, false)⟩]
+    (fun i => if i = 0 then 256 else 0) (fun _ => 0) (by decide +kernel) ?_
+  · revert this; decide +kernel
+  · refine ⟨?_, ?_, ?_⟩
+    · intro i hi
+      have : i ≠ 0 := fun h => hi (by simp [h])
+      simp [this]
+    · intro i hi
+      simp only [List.mem_cons, List.mem_nil_iff, or_false] at hi
+      subst hi
+      exact ⟨256, by simp, Or.inr ⟨by decide, 0, by decide, by simp⟩⟩
+    · intro cs hcs; simp at hcs
+
+example : boxMem (boxWrap false true ⟨[0], 8, .unsigned, .undefined, none, 16, false⟩ [⟨some (250, false), some (256, false)⟩])
+    (fun _ => 0) := by decide +kernel
 
 /-! ## dropping non-integer points -/
 
